@@ -49,6 +49,9 @@ type BSCase struct {
 	EnTrk    bool         `json:"enabled_trackers"`
 	Reload   []BLPeer     `json:"after_reload"` // listeners announced after the list was replaced; Blocked refers to the new list
 	SameIP   bool         `json:"two_ports_one_ip"`
+	// Ban > 0: a scripted seeder that corrupts every block gets itself banned; afterwards its IP is announced again on
+	// Ban other ports, next to each other in one tracker reply and in one ut_pex message.
+	Ban int `json:"banned_ip_ports"`
 }
 
 func genBS(t *rapid.T) BSCase {
@@ -73,6 +76,9 @@ func genBS(t *rapid.T) BSCase {
 		}
 	}
 	c.SameIP = rapid.IntRange(0, 3).Draw(t, "sameIP") == 0
+	if rapid.IntRange(0, 2).Draw(t, "ban") == 0 {
+		c.Ban = rapid.IntRange(1, 4).Draw(t, "banPorts")
+	}
 	return c
 }
 
@@ -248,8 +254,9 @@ func runBS(c BSCase) core.Result {
 			trackerPeers = append(trackerPeers, compactAddr(lns[i].ln.Addr())...)
 		}
 	}
-	okBody := model.Benc(map[string]any{"interval": int64(60), "peers": string(trackerPeers)})
-	carrier, err := strk.NewHTTP(sess.IP(4)+":0", func(n int, r strk.HTTPReq) []byte { return strk.OKResponse(okBody) })
+	var carrierBody atomic.Value
+	carrierBody.Store(model.Benc(map[string]any{"interval": int64(60), "peers": string(trackerPeers)}))
+	carrier, err := strk.NewHTTP(sess.IP(4)+":0", func(n int, r strk.HTTPReq) []byte { return strk.OKResponse(carrierBody.Load().([]byte)) })
 	if err != nil {
 		return core.Result{Inconcl: "tracker: " + err.Error()}
 	}
@@ -312,6 +319,40 @@ func runBS(c BSCase) core.Result {
 		_ = tor.AddPeer(twin[0].ln.Addr().String())
 		_ = tor.AddPeer(twin[1].ln.Addr().String())
 	}
+	// the corrupting seeder that will get its address banned
+	banIP := sess.IP(8)
+	var corrupter net.Listener
+	corruptClosed := make(chan struct{}, 8)
+	var corruptServed atomic.Int64
+	if c.Ban > 0 {
+		corrupter, err = net.Listen("tcp4", banIP+":0")
+		if err != nil {
+			panic(err)
+		}
+		defer corrupter.Close()
+		go func() {
+			for {
+				conn, err := corrupter.Accept()
+				if err != nil {
+					return
+				}
+				go func() {
+					var id [20]byte
+					copy(id[:], "-CR0001-corrupter000")
+					p, err := speer.Accept(conn, speer.Opts{InfoHash: ih, PeerID: id, Fast: true, Ext: true, Reqq: 250, MSEOptional: true}, 3*time.Second)
+					if err != nil {
+						return
+					}
+					srv := speer.Serve(p, speer.Behaviour{CorruptAll: true}, F, int(l.PieceLength))
+					<-srv.Done()
+					served, _, _, _, _, _ := srv.Snapshot()
+					corruptServed.Add(int64(served))
+					corruptClosed <- struct{}{}
+				}()
+			}
+		}()
+		_ = tor.AddPeer(corrupter.Addr().String())
+	}
 	// PEX carrier
 	var pexPeers []byte
 	for i, p := range c.Peers {
@@ -320,7 +361,8 @@ func runBS(c BSCase) core.Result {
 		}
 	}
 	pexSent := false
-	if len(pexPeers) > 0 {
+	var pexCarrier *speer.Peer
+	if len(pexPeers) > 0 || c.Ban > 0 {
 		var id [20]byte
 		copy(id[:], "-PX0001-carrier00000")
 		var p *speer.Peer
@@ -339,9 +381,12 @@ func runBS(c BSCase) core.Result {
 			if v, ok := p.ClientM["ut_pex"]; ok {
 				pid = v
 			}
-			p.Send(refwire.Msg{Kind: "ext-pex", ExtID: uint8(pid), Added: pexPeers})
-			p.Barrier(2 * time.Second)
-			pexSent = true
+			if len(pexPeers) > 0 {
+				p.Send(refwire.Msg{Kind: "ext-pex", ExtID: uint8(pid), Added: pexPeers})
+				p.Barrier(2 * time.Second)
+				pexSent = true
+			}
+			pexCarrier = p
 		}
 	}
 	// incoming connections
@@ -448,6 +493,65 @@ func runBS(c BSCase) core.Result {
 		}
 		if twin[0].accepted.Load()+twin[1].accepted.Load() > 0 {
 			lab["two-ports-one-ip"] = true
+		}
+	}
+	// ---- banned IP ----
+	if c.Ban > 0 {
+		banned := false
+		select {
+		case <-corruptClosed:
+			banned = corruptServed.Load() > 0
+		case <-time.After(4 * time.Second):
+		}
+		if !banned {
+			lab["ban-did-not-happen"] = true
+		} else {
+			// the same IP on other ports, next to each other, in front of an unrelated control address
+			var bl []*listener
+			var batch []byte
+			for k := 0; k < c.Ban; k++ {
+				ln := listen(banIP, nil)
+				bl = append(bl, ln)
+				batch = append(batch, compactAddr(ln.ln.Addr())...)
+			}
+			ctl := listen(sess.IP(7), nil)
+			batch = append(batch, compactAddr(ctl.ln.Addr())...)
+			defer func() {
+				for _, b := range bl {
+					b.ln.Close()
+				}
+				ctl.ln.Close()
+			}()
+			carrierBody.Store(model.Benc(map[string]any{"interval": int64(60), "peers": string(batch)}))
+			before := len(carrier.Requests())
+			tor.Announce()
+			if pexCarrier != nil && !pexCarrier.Closed() {
+				pid := 2
+				if v, ok := pexCarrier.ClientM["ut_pex"]; ok {
+					pid = v
+				}
+				pexCarrier.Send(refwire.Msg{Kind: "ext-pex", ExtID: uint8(pid), Added: batch})
+				lab["banned-ip-via-pex"] = true
+			}
+			deadline := time.Now().Add(4 * time.Second)
+			for len(carrier.Requests()) == before && time.Now().Before(deadline) {
+				time.Sleep(20 * time.Millisecond)
+			}
+			if len(carrier.Requests()) > before {
+				lab["banned-ip-via-tracker"] = true
+			}
+			time.Sleep(1500 * time.Millisecond)
+			for k, b := range bl {
+				if n := b.accepted.Load(); n > 0 {
+					return core.Failf("%s was banned for sending corrupt data (%d corrupt blocks served, then disconnected); announced again on %d other ports in one batch, port #%d (%s) received %d connections", banIP, corruptServed.Load(), c.Ban, k, b.ln.Addr(), n)
+				}
+			}
+			if ctl.accepted.Load() == 0 {
+				controlsOK = false
+				lab["control-peer-not-contacted-after-ban"] = true
+			} else {
+				lab["blocked-banned-ip"] = true
+			}
 		}
 	}
 	// ---- reload ----
